@@ -985,6 +985,19 @@ pub fn run_c08(ctx: &Ctx) -> i32 {
                 alphabet.push(Program { entry: Entry::Execute { sender: ad.poor.clone(), contract: c.clone(), funds: vec![] }, root: 0, nodes });
             }
         }
+        // five neighbouring keys written in one transaction; in a later one, two of them with a
+        // survivor in between are removed and a nested call iterates (both directions) before the
+        // transaction ends
+        {
+            let five: Vec<WriteOp> = (1..=5).map(|i| WriteOp::Set(format!("q{}", i).into_bytes(), format!("v{}", i).into_bytes())).collect();
+            alphabet.push(Program { entry: Entry::Execute { sender: ad.poor.clone(), contract: ad.a.clone(), funds: vec![] }, root: 0, nodes: vec![Node { writes: five, ..Default::default() }] });
+            for removed in [vec!["q4", "q2"], vec!["q2", "q4"], vec!["q5", "q3", "q1"]] {
+                let writes: Vec<WriteOp> = removed.iter().map(|k| WriteOp::Remove(k.as_bytes().to_vec())).collect();
+                let mut root = Node { writes, ..Default::default() };
+                root.subs.push(Sub { id: 300, payload: vec![], reply_on: Mode::Never, msg: Msg::Call { target: Target::SelfC, funds: vec![], node: 1 }, reply: None });
+                alphabet.push(Program { entry: Entry::Execute { sender: ad.poor.clone(), contract: ad.a.clone(), funds: vec![] }, root: 0, nodes: vec![root, Node::default()] });
+            }
+        }
         alphabet.push(Program { entry: Entry::SendHelper { from: ad.rich.clone(), to: ad.b.clone(), coins: vec![("x".into(), 1)] }, root: 0, nodes: vec![] });
         alphabet.push(Program { entry: Entry::User { sender: ad.rich.clone(), msg: Msg::Delegate { validator: VALIDATOR.into(), denom: "TOKEN".into(), amount: 1 } }, root: 0, nodes: vec![] });
         alphabet.push(Program { entry: Entry::Instantiate { sender: ad.rich.clone(), code: 1, funds: vec![], label: "another".into(), admin: None }, root: 0, nodes: vec![Node { writes: vec![WriteOp::Set(b"pre".to_vec(), b"another".to_vec())], ..Default::default() }] });
